@@ -585,6 +585,11 @@ def norm_msg(msg):
     return m[:110]
 
 
+def exponent_rejected(msg):
+    """lxml rejected a literal in exponent notation as a value of an atomic type"""
+    return msg is not None and re.search(r"'[+-]?[0-9.]+E[+-]?[0-9]+' is not a valid value of the atomic type", msg) is not None
+
+
 def nil_missing_attr(msg):
     return msg is not None and 'is required but missing' in msg
 
@@ -609,7 +614,7 @@ def oracle_emitted(check, W, ui, cid, v, tag=''):
     if not ok:
         if region and nil_missing_attr(msg):
             key = 'C06|nil|required-attribute|emitted'
-        elif dexp and msg and "'xs:decimal'" in msg:
+        elif dexp and exponent_rejected(msg):
             key = 'C06|decimal|exponent-notation|emitted'
         else:
             key = 'C06|emitted-invalid|request|' + (tag or norm_msg(msg))
@@ -636,7 +641,7 @@ def oracle_emitted(check, W, ui, cid, v, tag=''):
     if not ok:
         if region and nil_missing_attr(msg):
             key = 'C06|nil|required-attribute|emitted'
-        elif dexp and msg and "'xs:decimal'" in msg:
+        elif dexp and exponent_rejected(msg):
             key = 'C06|decimal|exponent-notation|emitted'
         else:
             key = 'C06|emitted-invalid|response|' + (tag or norm_msg(msg))
